@@ -843,7 +843,7 @@ fn full_alphabet() -> Vec<Op> {
     ]
 }
 fn reduced_alphabet() -> Vec<Op> {
-    vec![Op::Ins(1), Op::Ins(2), Op::Prep(2, 3), Op::Upd(1), Op::UpdAll, Op::Del(1), Op::Trunc, Op::CIdx, Op::InsA, Op::TxnIns(3)]
+    vec![Op::Ins(1), Op::TxnUpdAll, Op::Prep(2, 3), Op::Upd(1), Op::UpdAll, Op::Del(1), Op::Trunc, Op::CIdx, Op::InsA, Op::TxnIns(3)]
 }
 
 fn passes(ctx: &Ctx) -> Vec<Pass> {
@@ -856,7 +856,7 @@ fn passes(ctx: &Ctx) -> Vec<Pass> {
         v.push(Pass {
             name: "deep",
             vars: vec![Var::PkIdx, Var::Auto],
-            alphabet: vec![Op::Ins(1), Op::Prep(2, 3), Op::Upd(1), Op::UpdAll, Op::Del(1), Op::Trunc, Op::InsA, Op::TxnIns(3)],
+            alphabet: vec![Op::Ins(1), Op::Prep(2, 3), Op::TxnUpdAll, Op::UpdAll, Op::Del(1), Op::Trunc, Op::InsA, Op::TxnIns(3)],
             max_ops: 3,
             configs: vec![on, Cfg { threshold: 1, ..on }, Cfg { sync: 1, autoflush: 1, threshold: 2, ..on }, Cfg { sync: 1, ..Cfg::DEFAULT }],
         });
